@@ -4,44 +4,76 @@
 
    The logical workbook [workbook V] stores its sheets as the (name, visibility, kind) triples the
    readers must report, so "map sheet_meta (sheets wb)" is [wb_sheets wb] itself.
-   Proved end to end (all workbooks, all legal encoding choices): xlsx and ods.
-   xls: proved for workbooks without defined names (C16_sheets_in_order_xls_partial); xlsb: the
-   model and encoder exist and are tied to the real code by the correspondence run, the
-   parse-encode theorem is NOT proved (see notes/C16.md, "missing").  For both, the threading of the
-   date flag into the cells and the xls refutation witness are proved. *)
-From Calamine Require Import Prelude BiffSst Meta Meta_proofs MetaXls_proofs.
-From Calamine Require Ptg NumFmt.
+   Proved end to end for all four formats (all workbooks, all legal encoding choices, no known
+   class left): sheets in order, defined names in order, date flag, and the date flag composed
+   with C10's style plumbing.  *)
+From Calamine Require Import Prelude BiffSst Meta Meta_proofs MetaXls_proofs MetaXlsb_proofs MetaXlsNames_proofs.
+From Calamine Require Ptg NumFmt NumFmt_proofs.
 Open Scope N_scope.
 
 (* ---------- (1) sheets in workbook order: same count, same order, exact names, visibility, kind *)
 Theorem C16_sheets_in_order_xlsx : forall c wb rjunk,
-  xlsx_legal c wb = true -> known_xlsx c wb = None -> forallb junk_ok_rels rjunk = true ->
+  xlsx_legal c wb = true -> forallb junk_ok_rels rjunk = true ->
   exists p, xlsx_open (rels_events [] rjunk (xc_rels c)) (xlsx_wb_events c wb) = Ok p /\
             p_sheets p = wb_sheets wb /\ p_paths p = xlsx_paths c wb.
 Proof. exact sheets_in_order_xlsx. Qed.
 
 Theorem C16_sheets_in_order_ods : forall c wb,
-  ods_legal c wb = true -> known_ods c wb = None ->
+  ods_legal c wb = true ->
   exists p, ods_parse_content (ods_events c wb) = Ok p /\ p_sheets p = wb_sheets wb.
 Proof. exact sheets_in_order_ods. Qed.
 
-(* xls, PARTIAL: workbooks without defined names and without an ExternSheet table — sheets in
-   order with exact names (8- or 16-bit storage), visibility, kind, and the date flag; junk records
-   anywhere among the globals.  The general statement (with Lbl / ExternSheet) is not proved. *)
-Theorem C16_sheets_in_order_xls_partial : forall c wb,
-  xls_legal c wb = true -> wb_names wb = [] -> lc_xtis c = [] ->
-  xls_parse_workbook (xls_stream c wb) = Ok (mkParsed (wb_sheets wb) [] [] (wb_1904 wb)).
-Proof. exact xls_parse_encode_partial. Qed.
+(* xls: BoundSheet8 records in order (8- or 16-bit names, unused hsState bits), junk records in
+   four places, Date1904 present or not *)
+Theorem C16_sheets_in_order_xls : forall c wb, xls_legal c wb = true ->
+  exists p, xls_parse_workbook (xls_stream c wb) = Ok p /\ p_sheets p = wb_sheets wb.
+Proof. exact sheets_in_order_xls. Qed.
+
+(* the whole xls report: Lbl records in order, each name resolved through the XTI table to the
+   sheet it names, the 3-D reference / area rendered with `$` exactly on the absolute components
+   (parse_defined_names after its repair), date flag *)
+Theorem C16_report_xls : forall c wb, xls_legal c wb = true ->
+  xls_parse_workbook (xls_stream c wb) =
+  Ok (mkParsed (wb_sheets wb) [] (spec_names_xls c wb) (wb_1904 wb)).
+Proof. exact xls_parse_encode. Qed.
+
+Theorem C16_defined_names_in_order_xls : forall c wb, xls_legal c wb = true ->
+  exists p, xls_parse_workbook (xls_stream c wb) = Ok p /\ p_names p = spec_names_xls c wb.
+Proof. exact defined_names_in_order_xls. Qed.
+
+(* xlsb: the BrtBundleSh list in order (names, visibility, kind through the relationship lookup),
+   junk records anywhere, 1- and 2-byte record types, 1-4-byte lengths *)
+Theorem C16_sheets_in_order_xlsb : forall show_f64 c wb rjunk,
+  xlsb_legal c wb = true -> forallb junk_ok_brels rjunk = true ->
+  exists p, xlsb_open show_f64 (xlsb_rels_events rjunk (bc_rels c)) (xlsb_workbook_bin c wb) = Ok p /\
+            p_sheets p = wb_sheets wb /\ p_paths p = xlsb_paths c wb.
+Proof. exact sheets_in_order_xlsb. Qed.
+
+(* the whole xlsb report: sheets, the (name, part path) table, every defined name rendered by the
+   formula decoder under the XTI table and the names before it (any well-formed expression of
+   C14's grammar, through C14_rpn_correct_xlsb), date flag *)
+Theorem C16_report_xlsb : forall show_f64 c wb rjunk,
+  xlsb_legal c wb = true -> forallb junk_ok_brels rjunk = true ->
+  xlsb_open show_f64 (xlsb_rels_events rjunk (bc_rels c)) (xlsb_workbook_bin c wb) =
+  Ok (mkParsed (wb_sheets wb) (xlsb_paths c wb)
+               (spec_names_xlsb show_f64 (spec_ext (map m_name (wb_sheets wb)) (bc_xtis c)) []
+                                (wb_names wb))
+               (wb_1904 wb)).
+Proof. exact xlsb_open_encode. Qed.
+
+Theorem C16_rels_roundtrip_xlsb : forall junk l, forallb junk_ok_brels junk = true ->
+  xlsb_read_relationships (xlsb_rels_events junk l) [] = rels_map l.
+Proof. exact xlsb_rels_roundtrip. Qed.
 
 (* the whole report at once *)
 Theorem C16_report_xlsx : forall c wb rjunk,
-  xlsx_legal c wb = true -> known_xlsx c wb = None -> forallb junk_ok_rels rjunk = true ->
+  xlsx_legal c wb = true -> forallb junk_ok_rels rjunk = true ->
   xlsx_open (rels_events [] rjunk (xc_rels c)) (xlsx_wb_events c wb) =
   Ok (mkParsed (wb_sheets wb) (xlsx_paths c wb) (wb_names wb) (wb_1904 wb)).
 Proof. exact xlsx_open_encode. Qed.
 
 Theorem C16_report_ods : forall c wb,
-  ods_legal c wb = true -> known_ods c wb = None ->
+  ods_legal c wb = true ->
   ods_parse_content (ods_events c wb) = Ok (mkParsed (wb_sheets wb) [] (wb_names wb) false).
 Proof. exact ods_parse_encode. Qed.
 
@@ -53,23 +85,74 @@ Proof. exact xlsx_rels_roundtrip. Qed.
 
 (* ---------- (2) defined names in workbook order, stored text unchanged (xlsx, ods) *)
 Theorem C16_defined_names_in_order_xlsx : forall c wb rjunk,
-  xlsx_legal c wb = true -> known_xlsx c wb = None -> forallb junk_ok_rels rjunk = true ->
+  xlsx_legal c wb = true -> forallb junk_ok_rels rjunk = true ->
   exists p, xlsx_open (rels_events [] rjunk (xc_rels c)) (xlsx_wb_events c wb) = Ok p /\
             p_names p = wb_names wb.
 Proof. exact defined_names_in_order_xlsx. Qed.
 
 Theorem C16_defined_names_in_order_ods : forall c wb,
-  ods_legal c wb = true -> known_ods c wb = None ->
+  ods_legal c wb = true ->
   exists p, ods_parse_content (ods_events c wb) = Ok p /\ p_names p = wb_names wb.
 Proof. exact defined_names_in_order_ods. Qed.
 
 (* ---------- (3) the date-system flag reaches every DateTime cell of every sheet *)
 Theorem C16_date_flag_reaches_cells_xlsx : forall c wb rjunk,
-  xlsx_legal c wb = true -> known_xlsx c wb = None -> forallb junk_ok_rels rjunk = true ->
+  xlsx_legal c wb = true -> forallb junk_ok_rels rjunk = true ->
   exists p, xlsx_open (rels_events [] rjunk (xc_rels c)) (xlsx_wb_events c wb) = Ok p /\
     forall formats cells b dur g,
       In (NumFmt.DDateTime b dur g) (xlsx_sheet_values p formats cells) -> g = wb_1904 wb.
 Proof. exact date_flag_reaches_cells_xlsx. Qed.
+
+(* xlsb: the flag is the workbook's, and (C10's date_iff_style_xlsb) a numeric cell of any sheet
+   under any style table is typed by its style and carries that flag *)
+Theorem C16_date_flag_reaches_cells_xlsb : forall show_f64 c wb rjunk,
+  xlsb_legal c wb = true -> forallb junk_ok_brels rjunk = true ->
+  exists p, xlsb_open show_f64 (xlsb_rels_events rjunk (bc_rels c)) (xlsb_workbook_bin c wb) = Ok p /\
+    (forall t style_ref v fmt,
+       NumFmt_proofs.ids_below 65536 t -> NumFmt_proofs.xfs_present t ->
+       NumFmt_proofs.customs_off_builtin_dates t ->
+       nth_error (NumFmt.xfs t) (N.to_nat style_ref) = Some fmt ->
+       NumFmt.xlsb_cell_number (NumFmt.xlsb_formats (NumFmt.enc_biff t)) (p_1904 p) style_ref v =
+       NumFmt.spec_cell (NumFmt.resolve t fmt) (wb_1904 wb) v) /\
+    (forall formats cells b dur g,
+       In (NumFmt.DDateTime b dur g) (xlsb_sheet_values p formats cells) -> g = wb_1904 wb).
+Proof. exact date_flag_reaches_cells_xlsb. Qed.
+
+Theorem C16_date_flag_reaches_cells_xls : forall c wb, xls_legal c wb = true ->
+  exists p, xls_parse_workbook (xls_stream c wb) = Ok p /\
+    (forall t ixfe v fmt,
+       NumFmt_proofs.ids_below 65536 t -> NumFmt_proofs.xfs_present t ->
+       nth_error (NumFmt.xfs t) (N.to_nat ixfe) = Some fmt ->
+       NumFmt.xls_cell_number (NumFmt.xls_formats (NumFmt.enc_biff t)) (p_1904 p) ixfe v =
+       NumFmt.spec_cell (NumFmt.resolve t fmt) (wb_1904 wb) v) /\
+    (forall t ixfe bits fmt,
+       NumFmt_proofs.ids_below 65536 t -> NumFmt_proofs.xfs_present t ->
+       nth_error (NumFmt.xfs t) (N.to_nat ixfe) = Some fmt ->
+       NumFmt.xls_formula_number (NumFmt.xls_formats (NumFmt.enc_biff t)) (p_1904 p) ixfe bits =
+       NumFmt.spec_cell (NumFmt.resolve t fmt) (wb_1904 wb) (NumFmt.NF bits)) /\
+    (forall formats cells b dur g,
+       In (NumFmt.DDateTime b dur g) (xls_sheet_values p formats cells) -> g = wb_1904 wb).
+Proof. exact date_flag_reaches_cells_xls. Qed.
+
+(* xlsx, composed with C10's date_iff_style_xlsx *)
+Theorem C16_date_flag_style_xlsx : forall c wb rjunk,
+  xlsx_legal c wb = true -> forallb junk_ok_rels rjunk = true ->
+  exists p, xlsx_open (rels_events [] rjunk (xc_rels c)) (xlsx_wb_events c wb) = Ok p /\
+    forall t s_attr bits fmt,
+      NumFmt_proofs.ids_below (2 ^ 32) t -> NumFmt_proofs.codes_nonempty t ->
+      nth_error (NumFmt.xfs t) (N.to_nat (match s_attr with Some i => i | None => 0 end)) = Some fmt ->
+      NumFmt.xlsx_cell_number (NumFmt.xlsx_read_styles (NumFmt.enc_xlsx t)) (p_1904 p) s_attr bits =
+      NumFmt.spec_cell (NumFmt.resolve t fmt) (wb_1904 wb) (NumFmt.NF bits).
+Proof. exact date_flag_style_xlsx. Qed.
+
+(* totality (for C06): the two event-level readers never panic and never run out of fuel, on any
+   event list whatsoever *)
+Theorem C16_no_panic_xlsx_open : forall rel_evs wb_evs,
+  xlsx_open rel_evs wb_evs <> Panic /\ xlsx_open rel_evs wb_evs <> OutOfFuel.
+Proof. exact no_panic_xlsx_open. Qed.
+Theorem C16_no_panic_ods_parse_content : forall evs,
+  ods_parse_content evs <> Panic /\ ods_parse_content evs <> OutOfFuel.
+Proof. exact no_panic_ods_parse_content. Qed.
 
 (* for xls / xlsb: whatever flag the workbook part was parsed to is the flag of every DateTime
    cell (the equation p_1904 p = wb_1904 wb is part of the missing parse-encode theorems) *)
@@ -90,69 +173,59 @@ Theorem C16_tables_injective :
                xls_kind_code a = xls_kind_code b -> a = b).
 Proof. exact tables_injective. Qed.
 
-(* ---------- known classes: the current code deviates on a legal input *)
-Theorem C16_refuted_rid_prefix :
-  let c := xlsx_witness_c [114; 101; 108] in
-  xlsx_legal c xlsx_witness_wb = true /\ known_xlsx c xlsx_witness_wb = Some 1 /\
-  xlsx_read_workbook (rels_map (xc_rels c)) (xlsx_wb_events c xlsx_witness_wb) = Err E_UNREC.
-Proof. exact xlsx_refuted_rid_prefix. Qed.
-
-Theorem C16_refuted_name_cdata :
-  xlsx_legal xlsx_witness_cdata_c xlsx_witness_cdata_wb = true /\
-  known_xlsx xlsx_witness_cdata_c xlsx_witness_cdata_wb = Some 2 /\
-  xlsx_read_workbook [] (xlsx_wb_events xlsx_witness_cdata_c xlsx_witness_cdata_wb) =
-  Ok (mkParsed [] [] [([110], [])] false).
-Proof. exact xlsx_refuted_cdata. Qed.
-
-Theorem C16_refuted_ods_names_whitespace :
-  ods_legal ods_witness_c ods_witness_wb = true /\ known_ods ods_witness_c ods_witness_wb = Some 1 /\
-  ods_parse_content (ods_events ods_witness_c ods_witness_wb) = Err E_MISMATCH.
-Proof. exact ods_refuted_names_whitespace. Qed.
-
-Theorem C16_refuted_xls_relative_name :
-  xls_legal xls_witness_c xls_witness_wb = true /\
-  known_xls xls_witness_c xls_witness_wb = Some 1 /\
-  spec_names_xls xls_witness_c xls_witness_wb = [([110], [83; 33; 66; 36; 49])] /\
-  xls_parse_workbook (xls_stream xls_witness_c xls_witness_wb) =
-  Ok (mkParsed [mkMeta [83] Visible WorkSheet] []
-               [([110], [83; 33; 36; 88; 70; 70; 36; 49])] false).
-Proof. exact xls_refuted_relative_name. Qed.
-
 (* ---------- non-vacuity *)
 Example C16_xlsx_nonvacuous :
-  xlsx_legal ex_xlsx_c ex_xlsx_wb = true /\ known_xlsx ex_xlsx_c ex_xlsx_wb = None /\
+  xlsx_legal ex_xlsx_c ex_xlsx_wb = true /\
   xlsx_open (rels_events [] [] (xc_rels ex_xlsx_c)) (xlsx_wb_events ex_xlsx_c ex_xlsx_wb) =
   Ok (mkParsed (wb_sheets ex_xlsx_wb) (xlsx_paths ex_xlsx_c ex_xlsx_wb) (wb_names ex_xlsx_wb) true).
 Proof. exact xlsx_nonvacuous. Qed.
 
+Example C16_xlsb_nonvacuous :
+  xlsb_legal ex_xlsb_c ex_xlsb_wb = true /\
+  map fst (spec_names_xlsb (fun _ => []) (spec_ext (map m_name (wb_sheets ex_xlsb_wb)) (bc_xtis ex_xlsb_c))
+                           [] (wb_names ex_xlsb_wb)) = [[110]; [109]].
+Proof. exact xlsb_nonvacuous. Qed.
+
 Example C16_xls_nonvacuous :
-  xls_legal ex_xls_c ex_xls_wb = true /\
-  xls_parse_workbook (xls_stream ex_xls_c ex_xls_wb) =
-  Ok (mkParsed (wb_sheets ex_xls_wb) [] [] true).
-Proof. exact xls_nonvacuous. Qed.
+  xls_legal ex_xlsn_c ex_xlsn_wb = true /\
+  spec_names_xls ex_xlsn_c ex_xlsn_wb =
+    [([110], [97; 233; 33; 66; 36; 49]);
+     ([20013], [128512; 20013; 33; 36; 65; 36; 49; 58; 36; 90; 49; 48]);
+     ([101], [128512; 20013; 33; 35; 82; 69; 70; 33])].
+Proof. exact xlsn_nonvacuous. Qed.
 
 Example C16_ods_nonvacuous :
-  ods_legal ex_ods_c ex_ods_wb = true /\ known_ods ex_ods_c ex_ods_wb = None /\
+  ods_legal ex_ods_c ex_ods_wb = true /\
   ods_parse_content (ods_events ex_ods_c ex_ods_wb) =
   Ok (mkParsed (wb_sheets ex_ods_wb) [] (wb_names ex_ods_wb) false).
 Proof. exact ods_nonvacuous. Qed.
 
 Check C16_report_xlsx : forall c wb rjunk,
-  xlsx_legal c wb = true -> known_xlsx c wb = None -> forallb junk_ok_rels rjunk = true ->
+  xlsx_legal c wb = true -> forallb junk_ok_rels rjunk = true ->
   xlsx_open (rels_events [] rjunk (xc_rels c)) (xlsx_wb_events c wb) =
   Ok (mkParsed (wb_sheets wb) (xlsx_paths c wb) (wb_names wb) (wb_1904 wb)).
 Check C16_report_ods : forall c wb,
-  ods_legal c wb = true -> known_ods c wb = None ->
+  ods_legal c wb = true ->
   ods_parse_content (ods_events c wb) = Ok (mkParsed (wb_sheets wb) [] (wb_names wb) false).
 Check C16_date_flag_reaches_cells_xlsx : forall c wb rjunk,
-  xlsx_legal c wb = true -> known_xlsx c wb = None -> forallb junk_ok_rels rjunk = true ->
+  xlsx_legal c wb = true -> forallb junk_ok_rels rjunk = true ->
   exists p, xlsx_open (rels_events [] rjunk (xc_rels c)) (xlsx_wb_events c wb) = Ok p /\
     forall formats cells b dur g,
       In (NumFmt.DDateTime b dur g) (xlsx_sheet_values p formats cells) -> g = wb_1904 wb.
 
 Print Assumptions C16_sheets_in_order_xlsx.
 Print Assumptions C16_sheets_in_order_ods.
-Print Assumptions C16_sheets_in_order_xls_partial.
+Print Assumptions C16_sheets_in_order_xls.
+Print Assumptions C16_report_xls.
+Print Assumptions C16_defined_names_in_order_xls.
+Print Assumptions C16_date_flag_reaches_cells_xls.
+Print Assumptions C16_date_flag_style_xlsx.
+Print Assumptions C16_no_panic_xlsx_open.
+Print Assumptions C16_no_panic_ods_parse_content.
+Print Assumptions C16_sheets_in_order_xlsb.
+Print Assumptions C16_report_xlsb.
+Print Assumptions C16_rels_roundtrip_xlsb.
+Print Assumptions C16_date_flag_reaches_cells_xlsb.
 Print Assumptions C16_report_xlsx.
 Print Assumptions C16_report_ods.
 Print Assumptions C16_rels_roundtrip_xlsx.
@@ -162,7 +235,3 @@ Print Assumptions C16_date_flag_reaches_cells_xlsx.
 Print Assumptions C16_date_flag_threaded_xls.
 Print Assumptions C16_date_flag_threaded_xlsb.
 Print Assumptions C16_tables_injective.
-Print Assumptions C16_refuted_rid_prefix.
-Print Assumptions C16_refuted_name_cdata.
-Print Assumptions C16_refuted_ods_names_whitespace.
-Print Assumptions C16_refuted_xls_relative_name.
